@@ -74,6 +74,11 @@ PARAM_TEMPLATES = [
     ('SELECT account, number WHERE account ~ {0} AND narration !~ {1}', ['lpat', 'lpat'], ('regex',)),
     ('SELECT narration, grepn({0}, narration, 0) AS g, payee WHERE payee ~ {1} OR narration ~ {0}', ['lpat', 'lpat'], ('regex',)),
     ('SELECT account, has_account(account) AS h, findfirst({0}, tags) AS t WHERE account ~ {0}', ['lpat'], ('regex',)),
+    # targets without AS: their name is their source text, so two placeholder targets may share a name
+    ('SELECT a, a * {0}, a * {1} FROM #t0 ORDER BY 3, 1', ['int', 'int'], ('dupnames',)),
+    ('SELECT {0}, {1}, a FROM #t0 ORDER BY 2 DESC, 3', ['int', 'int'], ('dupnames',)),
+    ('SELECT * FROM (SELECT a, a * {0}, a - {1} FROM #t0)', ['int', 'int'], ('dupnames', 'subq')),
+    ('SELECT * FROM (SELECT a, a * {0}, a * {1} FROM #t0)', ['int', 'int'], ('dupnames', 'dupsubq', 'subq')),
     ('SELECT {0} AS v, b + {1} AS w FROM #t0 LIMIT 3', ['dec', 'dec'], ('typed',)),
     ('SELECT {0} AS v, a FROM #t0 WHERE a < {1}', ['int', 'int'], ('typed',)),
     ('SELECT {0} AS flag, a FROM #t0 WHERE e OR {1}', ['bool', 'bool'], ('typed',)),
@@ -527,7 +532,9 @@ def execute(case, keep_log=False):
                 a = ('ok', [d[1] for d in got[1]], got[2])
                 b = ('ok', [d[1] for d in lit[1]], lit[2]) if lit[0] == 'ok' else lit
                 if a != b:
-                    violation('param-vs-literal', where, op, brief(lit), brief(got))
+                    tags_ = pool[op['stmt']]['tags'] if 'stmt' in op else []
+                    violation('param-vs-literal', where, op, brief(lit), brief(got),
+                              ':unaliased-duplicate-names-in-subquery' if 'dupsubq' in tags_ else '')
 
         def prepare(op):
             """(text, params) of an exec-type op; pristine parameter copy for the mutation check."""
@@ -545,6 +552,11 @@ def execute(case, keep_log=False):
                 elif bp == 'wrongkind':
                     params = {'p0': 1} if isinstance(params, list) else list(params.values())
             op['_lit_text'] = render(st['t'], 'lit', vals) if (st['types'] and not bp) else None
+            if 'dupnames' in st['tags']:
+                # unaliased targets are named after their source text: the literal form must really be parsed
+                op['twin_real'] = True
+                if op.get('mode', 'lit') == 'lit':
+                    op['real_parse'] = True
             if st['types']:
                 pos_text = render(st['t'], 'pos', vals)
                 ordered = [vals[k] for k in slot_order(st['t'], len(st['types']))]
